@@ -157,7 +157,7 @@ func c20Services() map[string]desc.MethodDescriptor {
 }
 
 type c20Entry struct {
-	kind int64 // 0 method A, 1 method B, 2 unknown method, 3 payload that does not fit
+	kind int64 // 0 method A, 1 method B, 2 unknown method, 3 payload that does not fit, 4 invalidated by the provider
 	val  string
 	md   map[string]string
 }
@@ -165,7 +165,7 @@ type c20Entry struct {
 func c20Entries(n int) []c20Entry {
 	var es []c20Entry
 	for i := 0; i < n; i++ {
-		e := c20Entry{kind: vConcretize(vNondetInt("kind", 0, 3))}
+		e := c20Entry{kind: vConcretize(vNondetInt("kind", 0, 4))}
 		c := vNondetInt("val", 'a', 'z')
 		e.val = string(rune(c))
 		switch vConcretize(vNondetInt("mdShape", 0, 3)) {
@@ -223,6 +223,10 @@ func HarnessC20GunEntries() {
 			am.Call = "p.S.Nope"
 		case 3:
 			am.Payload = map[string]interface{}{"nope": 1}
+		case 4:
+			// what grpc/json hands over for a malformed line under continue_on_error: an ammo object
+			// marked invalid (it may still hold what an earlier entry left in the recycled object)
+			am.Invalidate()
 		}
 		before := len(c20.recs)
 		c20.t0 = time.Now()
